@@ -198,6 +198,11 @@ struct RoundCfg {
     exec_yields: u32,
     exec_sleep_us: u32,
     delay: bool,
+    /// after each edit the roots are asked again *concurrently* (several tracked engines,
+    /// barrier start) instead of one after the other. Only sound on programs in which no
+    /// executor reads a query above a firewall (the fan-in programs: every root reads the
+    /// shared callee directly), because nothing masks the known finding C01-F1 here.
+    concurrent_requery: bool,
 }
 
 /// Run one concurrent round; returns violations (kind, detail).
@@ -286,19 +291,48 @@ fn engine_round<B: Backend>(b: &B, prog: Arc<Program>, roots: &[NodeId], inputs:
             }
             or.refr.inputs.insert(*i, nv);
             let (exp, _) = or.expect(roots);
-            let t = engine.clone().tracked().await;
-            // (the known finding C01-F1 - executor-level reads skip the firewall repair - is
-            // not this check's subject: the user repairs below every root first; a lost
-            // backward edge is not healed by that)
-            crate::eng::prerepair_tfc(&t, &crate::eng::topo_order(&prog, roots)).await;
             let mut stale = Vec::new();
-            for n in roots {
-                let v = query_node(&t, *n).await;
-                if v != exp[n] {
-                    stale.push(format!("{n:?}: got {v} expected {}", exp[n]));
+            if rc.concurrent_requery {
+                let k = rc.engines.max(2).min(roots.len().max(1));
+                let start = Arc::new(tokio::sync::Barrier::new(k));
+                let mut hs = Vec::new();
+                for c in 0..k {
+                    let mine: Vec<NodeId> = roots.iter().copied().skip(c).step_by(k).collect();
+                    let (e, start) = (engine.clone(), start.clone());
+                    hs.push(tokio::spawn(async move {
+                        let t = e.tracked().await;
+                        start.wait().await;
+                        let vs = futures::future::join_all(mine.iter().map(|n| query_node(&t, *n))).await;
+                        mine.into_iter().zip(vs).collect::<Vec<_>>()
+                    }));
                 }
+                rep.count("concurrent_requests_after_an_edit", roots.len() as u64);
+                for h in hs {
+                    match h.await {
+                        Ok(vs) => {
+                            for (n, v) in vs {
+                                if v != exp[&n] {
+                                    stale.push(format!("{n:?}: got {v} expected {}", exp[&n]));
+                                }
+                            }
+                        }
+                        Err(e) => out.push(("query-task-failed".into(), Json::obj().set("error", e.to_string()))),
+                    }
+                }
+            } else {
+                let t = engine.clone().tracked().await;
+                // (the known finding C01-F1 - executor-level reads skip the firewall repair - is
+                // not this check's subject: the user repairs below every root first; a lost
+                // backward edge is not healed by that)
+                crate::eng::prerepair_tfc(&t, &crate::eng::topo_order(&prog, roots)).await;
+                for n in roots {
+                    let v = query_node(&t, *n).await;
+                    if v != exp[n] {
+                        stale.push(format!("{n:?}: got {v} expected {}", exp[n]));
+                    }
+                }
+                drop(t);
             }
-            drop(t);
             if !stale.is_empty() {
                 out.push((
                     "lost-invalidation-after-concurrent-phase".into(),
@@ -405,6 +439,7 @@ pub fn worker(ctx: &WorkerCtx) -> Report {
             exec_yields: *r.pick(&[0u32, 0, 1, 2]),
             exec_sleep_us: *r.pick(&[0u32, 0, 0, 30]),
             delay: r.chance(1, 3),
+            concurrent_requery: fan_round && r.chance(1, 2),
         };
         let (_, spec) = pick_cfg(&mut r);
         let case = format!("engine round {i} fan={fan} roots={} workers={workers} engines={} shared={} backend={spec:?}", roots.len(), rc.engines, rc.shared_engine);
